@@ -122,7 +122,17 @@ def run_oracle(scn, tr):
         elif t == "local_fit":
             evals += 1
             add(rows_in_log(e["gp"], e["log"], e["log"]["he"], "local_gp_fitting"))
-            add(selection_oracle(e, "local_gp_fitting"))
+            b4 = e.get("before")
+            if e.get("exit_flag", 0) == -2 and b4 is not None and np.array_equal(e["gp"]["X"], b4["X"]) and np.array_equal(e["gp"]["y"], b4["y"]):
+                # the posterior could not be recomputed on the new training set, not even with the previous hyperparameters
+                # (numerically singular covariance): the previous GP - training set and posterior - is kept, exactly
+                labs.add("fit:posterior-failed-previous-gp-kept")
+            elif e.get("fit_failures"):
+                # the hyperparameter fit failed numerically inside this call and was retried on a thinned training set
+                # (closest pair and worst values dropped): C16's fallback; the rows must still be logged ones
+                labs.add("fit:thinned-after-failed-fit")
+            else:
+                add(selection_oracle(e, "local_gp_fitting"))
             if len(e["log"]["X"]) > len(e["gp"]["X"]):
                 nt = True
                 labs.add("fit:real-selection")
